@@ -353,6 +353,67 @@ _s("round_sub_int", r"""
                     int(floor_as<std::int16_t>(seconds, milli(seconds)(-1.0)).in(seconds)));
 """)
 
+_s("math_rep_types", r"""
+        probe_math_types<float>("float");
+        probe_math_types<double>("double");
+        probe_math_types<long double>("long double");
+""", defs="""template <typename R>
+void probe_math_types(const char *rep) {
+    using namespace au;
+    const auto a = seconds(R(2.5));
+    const auto b = seconds(R(-0.5));
+    const auto c1 = copysign(a, b);
+    const auto c2 = copysign(a, R(-1));
+    const auto c3 = copysign(R(3), b);
+    const auto f = fmod(a, seconds(R(1)));
+    const auto r = remainder(a, seconds(R(2)));
+    const auto ab = abs(b);
+    const auto mn = min(a, b);
+    const auto mx = max(a, milli(seconds)(R(1)));
+    const auto cl = clamp(a, seconds(R(0)), seconds(R(1)));
+    const auto sq = sqrt(squared(seconds)(R(6.25)));
+    const auto hy = hypot(seconds(R(3)), seconds(R(4)));
+    const auto rd = round_as(seconds, milli(seconds)(R(2500)));
+    const auto fl = floor_as(seconds, a);
+    const auto ce = ceil_as(seconds, a);
+    const auto inv = inverse_as(seconds, inverse(seconds)(R(4)));
+    std::printf("  math_rep_types %s sizes %zu %zu %zu %zu %zu %zu %zu %zu %zu %zu %zu %zu %zu %zu %zu\\n", rep, sizeof(c1), sizeof(c2), sizeof(c3), sizeof(f), sizeof(r),
+                sizeof(ab), sizeof(mn), sizeof(mx), sizeof(cl), sizeof(sq), sizeof(hy), sizeof(rd), sizeof(fl), sizeof(ce), sizeof(inv));
+    std::printf("  math_rep_types %s values %.17g %.17g %.17g %.17g %.17g %.17g %.17g %.17g %.17g %.17g %.17g %.17g %.17g %.17g\\n", rep, double(c1.in(seconds)), double(c2.in(seconds)),
+                double(c3), double(f.in(seconds)), double(r.in(seconds)), double(ab.in(seconds)), double(mn.in(seconds)), double(mx.in(seconds)), double(cl.in(seconds)),
+                double(sq.in(seconds)), double(hy.in(seconds)), double(rd.in(seconds)), double(fl.in(seconds)), double(ce.in(seconds)));
+    std::printf("  math_rep_types %s inv %.17g isnan %d\\n", rep, double(inv.in(seconds)), int(isnan(a)));
+}
+""")
+
+_s("trig_rep_types", r"""
+        probe_trig_types<float>("float");
+        probe_trig_types<double>("double");
+        probe_trig_types<long double>("long double");
+""", defs="""template <typename R>
+void probe_trig_types(const char *rep) {
+    using namespace au;
+    const auto s0 = sin(radians(R(0)));
+    const auto c0 = cos(radians(R(0)));
+    const auto t0 = tan(radians(R(0)));
+    const auto as = arcsin(R(0));
+    const auto ac = arccos(R(1));
+    const auto at = arctan(R(0));
+    std::printf("  trig_rep_types %s %zu %zu %zu %zu %zu %zu %.17g %.17g %.17g %.17g %.17g %.17g\\n", rep, sizeof(s0), sizeof(c0), sizeof(t0), sizeof(as), sizeof(ac), sizeof(at),
+                double(s0), double(c0), double(t0), double(as.in(radians)), double(ac.in(radians)), double(at.in(radians)));
+}
+""")
+
+_s("int_math_types", r"""
+        const auto a = abs(seconds(std::int8_t{-5}));
+        const auto m = min(seconds(std::int16_t{4}), seconds(std::int16_t{9}));
+        const auto x = max(minutes(std::uint8_t{2}), minutes(std::uint8_t{3}));
+        const auto c = clamp(seconds(std::int64_t{50}), seconds(std::int64_t{0}), seconds(std::int64_t{10}));
+        const auto p = int_pow<3>(seconds(std::int16_t{3}));
+        std::printf("int_math_types %d %zu %d %zu %d %zu %lld %zu %d %zu\n", int(a.in(seconds)), sizeof(a), int(m.in(seconds)), sizeof(m), int(x.in(minutes)), sizeof(x),
+                    static_cast<long long>(c.in(seconds)), sizeof(c), int(p.in(cubed(seconds))), sizeof(p));
+""")
+
 def names():
     return sorted(SNIPPETS)
 
